@@ -179,8 +179,7 @@ func runCheck(repo, verif, prop, tier, keep string, claim bool) int {
 				}
 			}()
 			ft := time.Now()
-			e := NewEnc(w, w.Funcs[r.key], w.CS.Funcs[r.key])
-			e.EncodeTop()
+			e := encodeFunction(w, w.Funcs[r.key], w.CS.Funcs[r.key])
 			r.enc = e
 			r.results = checkFunction(e, tier, seed, keep)
 			r.secs = time.Since(ft).Seconds()
